@@ -321,3 +321,8 @@ pub mod cluster {
         state
     }
 }
+
+/// C12/C20: a real per-node connection pool (with its refiller task) against a scripted server.
+pub mod pool {
+    pub use crate::network::connection_pool_verif::VerifPool;
+}
